@@ -523,6 +523,10 @@ class BaseNetQASMConnection(abc.ABC):
 
         subroutine = self._builder.subrt_compile_subroutine(protosubroutine)
 
+        # Just like after a flush: the arrays and registers of this subroutine
+        # should not be declared and returned again by the next one.
+        self._builder._reset()
+
         return subroutine
 
     def commit_protosubroutine(
